@@ -146,6 +146,14 @@ Leak(c, g, i, mode, r) ==
           THEN NImp[g][i] ELSE 0)
      + (IF "NoRestoreOnFailure" \in Break /\ r.kind = "unknown" THEN 1 ELSE 0)
 
+\* The instrumentation counter is incremented after the main text has been parsed
+\* and decremented (if positive) on the failure path; a load whose own text does
+\* not parse therefore decrements without having incremented.  With a balanced
+\* counter (always 0 between calls) this is invisible; it is what removes one
+\* leaked level again under ImportedParsersNotRestoredOnFailure.
+Unmatched(c, g, i, r) ==
+  Flag[c].classes /\ r.kind = "syntax" /\ NImp[g][i] = 0 /\ Nested[g][i] = {}
+
 Load(nm, s, mode, f) ==
   /\ Live(s)
   /\ LET m == mms[s]
@@ -169,7 +177,9 @@ Load(nm, s, mode, f) ==
          repo2 == IF Flag[c].grepo /\ ~hit THEN m.repo \cup libs \cup own ELSE m.repo
      IN /\ f \in (IF mode = "file" THEN FileNames(g) ELSE Inputs[g])
         /\ mms' = [mms EXCEPT ![s] = [cfg |-> c, inst |-> inst2, dirty |-> dirty2,
-                                      instr |-> m.instr + (IF hit THEN 0 ELSE Leak(c, g, i, mode, r)),
+                                      instr |-> IF hit THEN m.instr
+                                                ELSE IF Unmatched(c, g, i, r) /\ m.instr > 0 THEN m.instr - 1
+                                                ELSE m.instr + Leak(c, g, i, mode, r),
                                       repo |-> repo2]]
         /\ cache' = IF "NoCacheClear" \in Break /\ Flag[c].memo /\ ~hit THEN cache \cup {<<g, i>>} ELSE cache
         /\ Rec(nm, s, f, i, r)
